@@ -33,6 +33,11 @@ def main():
         d = os.path.join(VERIF, "seeded", n)
         meta = json.load(open(os.path.join(d, "meta.json")))
         patch = os.path.join(d, "patch.diff")
+        if meta.get("obsolete"):
+            out.write("| %s | - | obsolete: %s |\n" % (n, meta["obsolete"][:120]))
+            out.flush()
+            print(n, "OBSOLETE")
+            continue
         if subprocess.run(["git", "-C", "/repo", "status", "--porcelain"], capture_output=True, text=True).stdout.strip():
             print("/repo is dirty; stopping")
             sys.exit(2)
